@@ -1,3 +1,4 @@
+import PGT.Proofs.Echo
 import PGT.Proofs.ToFlat
 import PGT.Proofs.FromFlat
 import PGT.Proofs.ToInPlace
@@ -88,5 +89,67 @@ theorem C08_copyTo_step (m : Msg) (s : GoVal) (atys : List (String × TfTy)) (u 
   refine ⟨{ tf := .obj false false (some st'.attrs) (some atys), diags := st'.diags, hooks := st'.hooks }, st'.attrs, ?_,
     by simpa using hd, rfl, followsFields_of_forall m.fields s _ _ hall⟩
   simp [copyTo, hrun]
+
+-- ====================================================================================================
+-- the whole echo: CopyFrom(plan) ; CopyTo(struct, plan) ; CopyFrom – every template of the plain tree at every depth
+-- (proofs: `Proofs/EchoDecode.lean`, `Proofs/Echo.lean`). `PlanObj X m plan`: the plan is an object whose attributes conform to the
+-- IR (`PlanOKs`: flags anywhere; known scalars castable and in the range of the Go field (`LeafOK.range`); null values carry the
+-- zero payload; null / unknown objects and collections carry no content; names and map keys distinct) and whose extra attributes
+-- satisfy `X` (injected attributes). Conclusion = `Spec.c08Check` (the statement `C08_full` makes) and no diagnostics in any step.
+-- Not covered (kept as `echo_full`): oneof branches, children of nullable embedded messages, custom kinds.
+
+/-- **C08 step 1, decode is typed**: CopyFrom of a plan that satisfies the judgement into a fresh struct succeeds without
+a diagnostic; the struct it builds is typed in the sense the in-place CopyTo theorem (`toFields_inplace`) needs, and the
+plan's attributes are shaped in the sense of that theorem. -/
+theorem C08_decode_typed (X : String → TfVal → Prop) (ov : List (String × String)) (fs : List Field) (names : List String)
+    (attrs : Option (List (String × TfVal))) (atys : List (String × TfTy)) (h : PlanOKs X fs (attrs.getD []) atys) :
+    ∃ st', copyFromFields ov fs attrs { obj := resetOneOfs names (.struct []) } = .ok st' ∧ st'.diags = [] ∧
+      ToOKs fs st'.obj atys ∧ RTOKs fs st'.obj ∧ DecRels fs (attrs.getD []) st'.obj ∧
+      ShapedAttrs fs (attrs.getD []) atys := by
+  intros; apply PGT.decode_typed <;> assumption
+
+/-- **C08, apply echo** (plain tree, every nesting depth, any number of fields; `skN` / `skE` are the skip lists of
+`Spec.noUnknownDeep` / `Spec.echoKeeps` – any lists, in particular empty ones; `X` describes the extra attributes of the
+plan, `NoExtra` if there are none): for a plan object satisfying the judgement,
+* `CopyFrom(plan)` into a fresh struct succeeds without diagnostics (`s1`),
+* `CopyTo(s1)` into the plan object itself succeeds without diagnostics (`e`),
+* a second `CopyFrom(e)` into a fresh struct succeeds without diagnostics (`s2`),
+* nothing is unknown in `e` at any depth, every attribute that was known in the plan (null or not) is unchanged in `e`
+  (lists / maps: null-ness, length, key set), and `s2` equals `s1` in normal form. -/
+theorem C08_echo (X : String → TfVal → Prop) (ov : List (String × String)) (m : Msg) (plan : TfVal) (skN skE : List String)
+    (hX : ExtraOK X skN skE) (hp : PlanObj X m plan) :
+    ∃ s1 e s2, copyFrom ov m plan (.struct []) = .ok s1 ∧ s1.diags = [] ∧
+      copyTo m s1.obj plan = .ok e ∧ e.diags = [] ∧
+      copyFrom ov m e.tf (.struct []) = .ok s2 ∧ s2.diags = [] ∧
+      noUnknownDeep skN e.tf = true ∧ echoKeeps skE plan e.tf = true ∧ nfEqFields m.fields s1.obj s2.obj = true := by
+  intros; apply PGT.C08_echo <;> assumption
+
+/-- **C08 in the shape of `PGT.Props.C08.C08_full`**, for plan objects satisfying the judgement: whatever the three
+calls return, they return no diagnostic and the executable statement `Spec.c08Check` holds. -/
+theorem C08_echo_check (X : String → TfVal → Prop) (ov : List (String × String)) (m : Msg) (plan : TfVal) (s1 : FromResult) (e : ToResult) (s2 : FromResult)
+    (hX : ExtraOK X (injectedNames m.fields m.info.injected ++ customNames m.fields) (customNames m.fields))
+    (hp : PlanObj X m plan)
+    (h1 : copyFrom ov m plan (.struct []) = .ok s1) (h2 : copyTo m s1.obj plan = .ok e)
+    (h3 : copyFrom ov m e.tf (.struct []) = .ok s2) :
+    s1.diags = [] ∧ e.diags = [] ∧ s2.diags = [] ∧ c08Check m plan s1.obj e.tf s2.obj = true := by
+  intros; apply PGT.C08_echo_check <;> assumption
+
+/-- **Echo of a scalar** (field value; the same computation serves placeholders-free scalar attributes at every depth).
+The plan holds `prim k u n p`, CopyFrom decoded it to `x`; CopyTo back into the same value yields `prim k false n' p'`:
+* nothing unknown is left;
+* decoding the result again gives `x` back in normal form;
+* if the planned value was known (`u = false`) and satisfies the leaf hypotheses `LeafOK` – a non-null value within the
+  range of the Go field (`castTo (castFrom p) = p`), a null value carrying the payload the converter writes under a kept
+  `Null` flag (`castTo zero = p`; pointer-backed: any payload, it is not touched) – the value comes back **unchanged**:
+  same `Null`, same payload. -/
+theorem C08_prim_echo (info : FieldInfo) (k : PrimK) (hir : ScalarIR info k) (obj : GoVal) (u n : Bool) (p : Sc) (x : GoVal)
+    (t : Option TfTy) (hph : info.isPlaceholder = false) (he : info.parentIsOptionalEmbed = false)
+    (hc : known u n = true → ∃ c, info.castFrom k p = some c)
+    (hd : primDecode info k u n p = .ok x) :
+    ∃ n' p', primBody info obj (some (.prim k u n p)) t (.ok x) = .ok (.prim k false n' p', []) ∧
+      (∃ y, primDecode info k false n' p' = .ok y ∧ primNfEq info.isNullable x y = true) ∧
+      (LeafOK info k u n p → u = false → n' = n ∧ p' = p) := by
+  intros; apply PGT.primEcho <;> assumption
+
 
 end PGT.Props.C08
